@@ -54,8 +54,9 @@ def run(chk):
     for _ in range(n):
         k = rng.choice([1, 2, 3, 4, 5, 6, 8, 12, 16, 20, 24, 30])
         ws = [rng.choice(WORDS) for _ in range(k)]
-        if ws[0] in ("nothing", "true", "mysterious", "5", "42", "007", "it"):
-            ws[0] = "a"          # a literal word / number / pronoun first would make it an expression
+        if ws[0].split("'")[0] in ("nothing", "true", "mysterious", "5", "42", "007", "it"):
+            ws[0] = "a"          # a literal word / number / pronoun first (also before 's: `nothing's 007` is the
+                                 # comparison `nothing is 007`) would make it an expression
         text = ws[0]
         for w in ws[1:]:
             c = rng.random()
